@@ -161,8 +161,19 @@ struct X
     }
     void label(const char* kind, const Label& l)
     {
-        if (!l.present())
+        if (!l.present()) {
+            // an absent label may also be written as an empty element (editors that keep the coordinates do that)
+            if (k.empty_elems && rng.chance(0.25)) {
+                nl();
+                if (rng.chance(0.5))
+                    open("label", {{"kind", kind}}, true, true);
+                else {
+                    open("label", {{"kind", kind}}, true, false);
+                    os << "</label>";
+                }
+            }
             return;
+        }
         nl();
         open("label", {{"kind", kind}}, true, false);
         os << text(l.text) << "</label>";
@@ -275,6 +286,12 @@ std::string render_xml(const Model& m, const XmlKnobs& k, Rng& rng)
                 x.nl();
                 x.open("name", {}, true, false);
                 x.os << l.name << "</name>";
+            } else if (k.empty_elems && x.rng.chance(0.4)) {
+                x.nl();
+                const bool selfclose = x.rng.chance(0.5);  // <name x=".." y=".."/> or <name ..></name>
+                x.open("name", {}, true, selfclose);
+                if (!selfclose)
+                    x.os << "</name>";
             }
             if (k.rate_before_invariant) {
                 x.label("exponentialrate", l.rate);
